@@ -119,6 +119,11 @@ def ser_family(n_max=2, src_cycles=(0, 1, 2), sink_cycles=(0, 1), budgets=(None,
                             else:
                                 tag.append(f'{kind[0].upper()}{p["cycle"]}')
                         devs.append(sink('K', [prev], kc))
+                        if sc == 0:
+                            # a third of the family configures its cycle times through the property (set after construction)
+                            for dd in devs[1:]:
+                                if dd['kind'] in ('handler', 'processor', 'sink'):
+                                    dd['cycle_prop'] = True
                         name = f'SER[S{sc}b{"inf" if b is None else b}|{",".join(tag)}|K{kc}]'
                         yield spec(name, devs, horizon), ser_well_posed(sc, b, stations, kc)
 
